@@ -165,6 +165,13 @@ def r2(ctx):
             continue
         for i in idxs:
             n += 1
+            if i != IDX:
+                try:
+                    i2 = ninl(ctx, i)          # the index may come from a private helper (`fn slot(&self, h) -> usize`)
+                    if i2 == IDX:
+                        i = i2
+                except Exception:
+                    pass
             if i == IDX:
                 ctx.ok(R, '%s indexes the table with (hash as usize) & self.mask' % key, where(s.body))
             else:
@@ -186,6 +193,14 @@ def r3(ctx):
     pat = ('ite', ('bin', 'Eq', ('field', V('slot'), 'hash'), ('param', 2)),
            ((0, none), ('otherwise', ('agg', 'core::option::Option', 'Some', (('0', ('field', V('slot'), 'entry')),)))))
     m = match(pat, r)
+    if m is None:
+        try:
+            r2 = ninl(ctx, s.ret)         # private helpers (index computation) inlined
+            m = match(pat, r2)
+            if m is not None:
+                r = r2
+        except Exception:
+            pass
     if m is not None and m['slot'][0] == 'index' and is_table(m['slot'][1]):
         ctx.ok(R, 'get = if slot.hash == hash {Some(slot.entry)} else {None}', where(s.body))
     else:
@@ -197,11 +212,17 @@ def r3(ctx):
         ctx.ok(R, 'get writes nothing', where(s.body))
 
 
-def heap_final(s):
+def heap_final(s, ctx=None):
     out = []
     for r, v in s.final.items():
         if r[0] == 'h' and is_table(r[1]):
-            out.append((('mem', r), norm(v)))
+            nv = norm(v)
+            if ctx is not None and any(isinstance(x, tuple) and x and x[0] == 'call' and x[1].startswith('cache_table::') for x in walk(nv)):
+                try:
+                    nv = ninl(ctx, v)      # a private helper of the table (e.g. the index computation) inlined
+                except Exception:
+                    pass
+            out.append((('mem', r), nv))
     return out
 
 
@@ -211,7 +232,7 @@ def r4(ctx):
     if s is None:
         return
     new = ('agg', ENTRY, 'CacheTableEntry', (('hash', ('param', 2)), ('entry', ('param', 3))))
-    fin = heap_final(s)
+    fin = heap_final(s, ctx)
     ok = len(fin) == 1 and match(('updidx', norm(fin[0][0]), IDX, new), fin[0][1]) is not None
     if ok:
         ctx.ok(R, 'add stores (hash, entry) into the slot unconditionally', where(s.body))
@@ -226,7 +247,7 @@ def r5(ctx):
     if s is None:
         return
     new = ('agg', ENTRY, 'CacheTableEntry', (('hash', ('param', 2)), ('entry', ('param', 3))))
-    fin = heap_final(s)
+    fin = heap_final(s, ctx)
     if len(fin) != 1:
         ctx.violation(R, REPL, 'expected one conditional store into the table; got %d table states' % len(fin), where(s.body))
         return
